@@ -157,9 +157,20 @@ def run_irregular(ck, res, n_cases, goals, n_interval, torch, r, dist):
         cx, cy = dy(r, -1, 1), dy(r, -1, 1)
         a, b = dy(r, 0.5, 2), dy(r, 0.5, 2)
         ph0 = dy(r, 0, 1, 4)
-        # distinct points around the centre: a perturbed ellipse, angles strictly increasing
+        # distinct points around the centre: a perturbed ellipse, angles strictly increasing ...
         angs = [ph0 + 2 * math.pi * (j + 0.25 * r.random()) / M for j in range(M)]
         locs = [(cx + a * math.cos(t) * (1 + 0.2 * r.random()), cy + b * math.sin(t) * (1 + 0.2 * r.random())) for t in angs]
+        if ci % 3 == 2:
+            # ... or points on the boundary of an axis-aligned rectangle (shared x / shared y coordinates between
+            # neighbours: corners and points along the vertical and horizontal edges)
+            per = []
+            k = max(1, M // 4)
+            for j in range(k): per.append((cx - a + 2 * a * j / k, cy - b))
+            for j in range(k): per.append((cx + a, cy - b + 2 * b * j / k))
+            for j in range(k): per.append((cx + a - 2 * a * j / k, cy + b))
+            for j in range(k): per.append((cx - a, cy + b - 2 * b * j / k))
+            locs = per
+            M = len(locs)
         vals = [dy(r, -3, 3) for _ in range(M)]
         cps = [pde.DirichletControlPoint(loc=l, val=v) for l, v in zip(locs, vals)]
         captured.clear()
